@@ -1,4 +1,4 @@
-use crate::util::*;
+use verif_harness::*;
 use parsley_rust::pcore::parsebuffer::{ParseBuffer, ParseBufferT, ParsleyParser};
 use parsley_rust::pcore::prim_binary::*;
 
@@ -47,4 +47,12 @@ pub fn run(line: &str) -> String {
         "i64" => show(Int64P::new(e).parse(&mut pb), &pb),
         _ => "bad-case".to_string(),
     }
+}
+
+fn main() {
+    main_loop(Harness {
+        run,
+        gen: None,
+        extract: None,
+    })
 }
